@@ -4,6 +4,7 @@ import (
 	"fmt"
 	"io"
 
+	"github.com/ulikunitz/xz"
 	"github.com/ulikunitz/xz/lzma"
 
 	"verif/sim"
@@ -112,6 +113,15 @@ func runWriter(c *WCase, x *sim.Ctx) *WResult {
 		case "xz":
 			cfg := c.XZ.lib()
 			share(&cfg.Properties)
+			if *c.XZ == (XZCfg{NoProps: true}) {
+				// all defaults: the package-level constructor
+				ww, err := xz.NewWriter(sink.Writer())
+				res.NewErr = err
+				if err == nil {
+					w = ww
+				}
+				break
+			}
 			ww, err := cfg.NewWriter(sink.Writer())
 			res.NewErr = err
 			if err == nil {
@@ -120,6 +130,14 @@ func runWriter(c *WCase, x *sim.Ctx) *WResult {
 		case "lzma":
 			cfg := c.LZ.lib()
 			share(&cfg.Properties)
+			if *c.LZ == (LZCfg{NoProps: true}) {
+				ww, err := lzma.NewWriter(sink.Writer())
+				res.NewErr = err
+				if err == nil {
+					w = ww
+				}
+				break
+			}
 			ww, err := cfg.NewWriter(sink.Writer())
 			res.NewErr = err
 			if err == nil {
@@ -128,6 +146,14 @@ func runWriter(c *WCase, x *sim.Ctx) *WResult {
 		case "lzma2":
 			cfg := c.L2.lib()
 			share(&cfg.Properties)
+			if *c.L2 == (L2Cfg{NoProps: true}) {
+				ww, err := lzma.NewWriter2(sink.Writer())
+				res.NewErr = err
+				if err == nil {
+					w = ww
+				}
+				break
+			}
 			ww, err := cfg.NewWriter2(sink.Writer())
 			res.NewErr = err
 			if err == nil {
